@@ -62,7 +62,7 @@ class Prop(PropBase):
                 if l.mech:
                     ms = scen.MechStream(rng, l, dual=dual)
                     good_d = l.difop(dual=dual)
-                    mk = lambda: ms.msop(noise=rng.random() < 0.3, bpv4=(t == 'RSBP' and rng.random() < 0.3), model=rng.choice([0, 2, 3]))
+                    mk = lambda: ms.msop(noise=rng.random() < 0.3, bpv4=(t == 'RSBP' and rng.random() < 0.3), model=(rng.choice([0, 1, 2, 3, 2, 3, 4, 0x10, 0x80, 0xff]) if t == 'RSP80' else rng.choice([0, 2, 3])))
                 else:
                     st = {'seq': rng.choice([0, 1, 65530])}
                     good_d = l.difop(dual=dual)
